@@ -191,13 +191,13 @@ impl Check for C09 {
             .chain([(500u16, 9_000u32, 70_000u32), (500, 200, 150_000), (100, 30_000, 60_000)].iter().map(|(namespaces, uri_len, records)| Case {
                 script: Script { seed: crate::untrusted::Seed::LongNamespaceRecords { namespaces: *namespaces, uri_len: *uri_len, records: *records }, muts: vec![], reseal: true },
             }))
-            .chain([(20_000u32, 12u16, 0u8), (20_000, 12, 1), (400_000, 12, 0), (300_000, 12, 1), (60_000, 1, 1), (2_000, 4000, 0)].iter().map(|(pieces, piece_len, kind)| Case {
+            .chain([(20_000u32, 12u16, 0u8), (20_000, 12, 1), (20_000, 12, 2), (40_000, 1, 2), (400_000, 12, 0), (300_000, 12, 1), (60_000, 1, 1), (2_000, 4000, 0)].iter().map(|(pieces, piece_len, kind)| Case {
                 script: Script { seed: crate::untrusted::Seed::SplitText { pieces: *pieces, piece_len: *piece_len, kind: *kind }, muts: vec![], reseal: true },
             }))
             .collect()
     }
     fn describe_fixed(_t: Tier) -> Option<String> {
-        Some("4 hand-built conforming files: a 1-bit record followed by 40 .. 3000 constant records, one data packet with 20 000 .. 440 000 points; 2 hand-built files with 2 000 / 20 000 records and 100 000 / 5 000 000 minimum-size ignored packets; 12 hand-built files whose root declares 300 / 500 / 2 000 namespaces above 100 / 200 000 / 20 000 elements declaring one more, with space, line feed, tab or carriage return between the attributes; 3 hand-built files whose root declares 100 / 500 namespaces with names of 200 .. 30 000 bytes above a prototype of 60 000 .. 150 000 records in the namespace declared last; 6 hand-built files whose GUID string is written as 2 000 .. 400 000 pieces of character data (CDATA sections and text, or CDATA sections joined by carriage return references as the crate's writer splits strings)".into())
+        Some("4 hand-built conforming files: a 1-bit record followed by 40 .. 3000 constant records, one data packet with 20 000 .. 440 000 points; 2 hand-built files with 2 000 / 20 000 records and 100 000 / 5 000 000 minimum-size ignored packets; 12 hand-built files whose root declares 300 / 500 / 2 000 namespaces above 100 / 200 000 / 20 000 elements declaring one more, with space, line feed, tab or carriage return between the attributes; 3 hand-built files whose root declares 100 / 500 namespaces with names of 200 .. 30 000 bytes above a prototype of 60 000 .. 150 000 records in the namespace declared last; 8 hand-built files whose GUID string is written as 2 000 .. 400 000 pieces of character data (CDATA sections and text, or CDATA sections joined by carriage return references as the crate's writer splits strings)".into())
     }
     fn gen(s: &mut Src, _t: Tier) -> Case {
         let mut script = gen_script(s);
